@@ -149,20 +149,25 @@ theorem C03_limit (n : Nat) (rows : List Row) :
 /-- Order of application: ORDER BY on the full rows (hidden keys included), projection to the
     visible columns, DISTINCT, then LIMIT. -/
 theorem C03_pipeline (q : CQuery) (rows : List Row) (spec : List (Nat × Bool)) (n : Nat)
-    (hs : q.orderSpec = some spec) (hd : q.distinct = true) (hl : q.limit = some n)
-    (hsort : sortable spec rows = true)
-    (hhash : ((orderBy spec rows).map (project (resultIndexes q.targets))).all (fun r => r.all hashable) = true) :
-    postProcess q rows =
-      .ok ((uniquify ((stableSort (lexLt spec) rows).map (project (resultIndexes q.targets)))).take n) := by
-  unfold postProcess
-  simp only [hs, hd, hl, hsort, Bool.not_true, Bool.false_eq_true, ↓reduceIte, hhash, Bool.and_false]
-  rw [C03_multipass]
+    (hs : q.orderSpec = some spec) (hd : q.distinct = true) (hl : q.limit = some n) :
+    finishRows q rows =
+      (uniquify ((stableSort (lexLt spec) rows).map (project (resultIndexes q.targets)))).take n := by
+  simp [finishRows, projectedRows, orderedRows, hs, hd, hl, C03_multipass]
 
 theorem C03_pipeline_plain (q : CQuery) (rows : List Row)
     (hs : q.orderSpec = none) (hd : q.distinct = false) (hl : q.limit = none) :
     postProcess q rows = .ok (rows.map (project (resultIndexes q.targets))) := by
-  unfold postProcess
-  simp [hs, hd, hl]
+  simp [postProcess, unsortable, unhashableDistinct, finishRows, projectedRows, orderedRows, hs, hd, hl]
+
+/-- whenever post-processing returns, it returns the pipeline's rows -/
+theorem C03_postProcess_ok (q : CQuery) (rows out : List Row) (h : postProcess q rows = .ok out) :
+    out = finishRows q rows := by
+  unfold postProcess at h
+  cases h1 : unsortable q rows
+  · cases h2 : unhashableDistinct q rows
+    · simp [h1, h2] at h; exact h.symm
+    · simp [h1, h2] at h
+  · simp [h1] at h
 
 /-! ### non-vacuity -/
 
